@@ -8,6 +8,7 @@ UNIT_MODES = {
     'addsub': ['dbg', 'rel'],
     'powlog': ['dbg', 'rel'],
     'div': ['dbg', 'rel'],
+    'random': ['dbg', 'rel'],
 }
 
 # property -> verus units owned by the property (dependencies are added automatically) and the
@@ -23,6 +24,7 @@ PROPS = {
     'C14': dict(units=[], level='model_checking', title='float casts'),
     'C15': dict(units=['slices'], title='slices and endianness'),
     'C16': dict(units=['consts'], title='digit-type independence and constants'),
+    'C20': dict(units=['random'], title='random sampling: range membership and unbiasedness'),
 }
 
 QUICK_DIGITS = ['u64', 'u8']
